@@ -25,6 +25,8 @@ PolsLive2  == {<<"honest", "any">>}
 PolsQuick  == {<<"honest", "any">>, <<"any", "any">>, <<"drop", "honest">>}
 PolsNamed  == {<<"honest", a, b>> : a \in Policies \ {"any"}, b \in Policies \ {"any"}}
 PolsStall  == {<<"drop", "drop", "honest">>}
+\* arrival order / index labels (MC_Metadata_order.cfg: 3 blocks, two of them of equal size, queue lengths 1..3)
+PolsOrder  == {<<"swap", "honest">>, <<"honest", "swap">>, <<"swap", "swap">>, <<"honest", "honest">>}
 
 CfgSet ==
     { [np |-> NP, bs |-> BS, tsize |-> ts, max |-> MAXSZ, par |-> pa, q |-> q, pol |-> pv, advs |-> ADVS, lens |-> LENS,
